@@ -5,7 +5,7 @@ Templates are transcribed from RFC 4880 5.2.4 (+ rfc4880bis for 0x16 and 0x28) a
 """
 import re
 
-from .interp import Interp, Scenario, Sym, Const, Enum, Bytes, render, render_items, merge_consts, render_item, lin_norm
+from .interp import Interp, Scenario, Sym, Const, Enum, Bytes, render, render_items, merge_consts, render_item, lin_norm, sl
 from .templates import C, LEN, BYTE, SYM, Pred, match_any, render_template, split_top
 from .loader import AnalysisError
 from . import regexast
@@ -248,7 +248,7 @@ def check_subject_hashdata(rep, prog, rid):
         sc = Scenario(bind={'self.is_public': Const(public)})
         outs = Interp(prog, sc).run(fk)
         for s in outs:
-            exp = 'SLICE(%s.__bytearray__();len(%s.header);)' % (X, X)
+            exp = sl('%s.__bytearray__()' % X, ('len(%s.header)' % X, ''))
             found = render(s.ret) if s.ret is not None else '<no return>'
             rep.check(found == exp, rid, 'PGPKey.hashdata', 'is_public=%s: return %s' % (public, found),
                       'key hashdata must be the body of the PUBLIC key packet (packet minus header)',
@@ -258,7 +258,7 @@ def check_subject_hashdata(rep, prog, rid):
     for uid in (True, False):
         sc = Scenario(bind={'self.is_uid': Const(uid), 'self.is_ua': Const(not uid)})
         outs = Interp(prog, sc).run(fu)
-        exp = 'SLICE(self._uid.__bytearray__();len(self._uid.header);)' if uid else 'self._uid.subpackets.__bytearray__()'
+        exp = sl('self._uid.__bytearray__()', ('len(self._uid.header)', '')) if uid else 'self._uid.subpackets.__bytearray__()'
         for s in outs:
             found = render(s.ret) if s.ret is not None else '<no return>'
             rep.check(found == exp, rid, 'PGPUID.hashdata', 'is_uid=%s: return %s' % (uid, found),
